@@ -2,7 +2,9 @@
 
 correspondence: functional *_payoff and derivative.payoff() (with clauses) vs the Lean model
 (Model/Payoff.lean) at Rat, exact on dyadic paths; variance swap through the Float carrier;
-forward-start index through the bit-exact Float replica of floor(start/dt).
+forward-start index through the bit-exact Float replica of floor(start/dt);
+whole SESSIONS on one derivative object (attribute re-assignments, in-place price edits, buffer replacement, clause
+registration, refused operations, payoff() in between) vs `run` of Model/Session.lean (driver op "session"), every answer exact.
 property predicate: the contract formulas in exact Fractions (independent of the model).
 """
 import math
@@ -103,7 +105,14 @@ CLAUSES = {
     "affine": lambda a, b: (lambda d, p: p * float(a) + float(b)),
     "cap": lambda c: (lambda d, p: p.clamp(max=float(c))),
     "floor": lambda c: (lambda d, p: p.clamp(min=float(c))),
+    # reads the CURRENT price buffer of the underlier: zero where the path maximum reached the barrier
+    "knock_out": lambda b: (lambda d, p: _where(d.ul().spot.max(-1).values < float(b), p)),
 }
+
+
+def _where(cond, p):
+    import torch
+    return torch.where(cond, p, torch.zeros_like(p))
 
 
 def gen_deriv(g, tier):
@@ -154,7 +163,7 @@ def build_deriv(torch, c):
     return d, stock
 
 
-def apply_clauses_py(adds, p):
+def apply_clauses_py(adds, p, path=None):
     """independent reading of the property: registration order, re-registration replaces in place"""
     order, table = [], {}
     for name, desc in adds:
@@ -167,6 +176,8 @@ def apply_clauses_py(adds, p):
             p = F(d[1]) * p + F(d[2])
         elif d[0] == "cap":
             p = min(p, F(d[1]))
+        elif d[0] == "knock_out":
+            p = p if max(path) < F(d[1]) else F(0)
         else:
             p = max(p, F(d[1]))
     return order, p
@@ -373,7 +384,9 @@ def check(ctx):
         rule="functional payoffs on dyadic paths (ties with the strike/extremes frequent, T=1,2,.., float32/64), derivative objects "
              "with injected buffers and random clause sequences (re-registration included), forward-start index sweeps over dt/start; "
              "ONE derivative object re-used over a sequence of contract-term changes (strike, call flag, start), in-place price edits, "
-             "buffer re-registrations and clause registrations with payoff() after every step; forward-start options on SIMULATED paths "
+             "buffer re-registrations / simulate() and clause registrations (incl. a knock-out clause reading the current buffer, refused names, "
+             "cell indices outside the buffer) with payoff() after most steps, each such session also run through the Lean session model "
+             "(op session: every payoff() answer / raised error / final object state compared exactly); forward-start options on SIMULATED paths "
              "whose maturity is / is not a whole number of steps (terminal price = last simulated column, start=0 vs EuropeanOption); "
              "non-trivial = T>=2 (functional), any derivative/start-index/re-use/off-grid case; distinct = sha1 of canonical case")
 
@@ -382,51 +395,86 @@ def check(ctx):
 # ONE derivative object, a sequence of changes, payoff() after every change: the contract is the one at the CURRENT terms on
 # the CURRENT prices (nothing of an earlier evaluation may survive)
 
+BAD_NAMES = ["strike", "payoff", "maturity", "a.b", ""]          # add_clause refuses these (KeyError): attribute / "." / empty
+ATTR_CANDIDATES = ["strike", "payoff", "maturity", "a", "b", "c", "z", "knock", "call", "start", "underlier", "cost", "pricer"]
+
+
 def gen_reuse_ops(g, c):
+    """a history of operations on ONE object.  Kinds: strike / call (toggle, same, true, false) / start / spot (in-place cell edits,
+    Python indices incl. negative ones) / badcell (index outside the buffer: IndexError, nothing changes) / reregister (a new buffer
+    object, possibly of another shape) / simulate (the library replaces the buffer; the prices are then overwritten in place) /
+    clause (affine, cap, floor, knock_out on the current path maximum) / badclause (refused name: KeyError, nothing changes) /
+    again (payoff() once more); ["quiet", op] = the operation is NOT followed by a payoff() call"""
     kind = c["kind"]
-    N, T = len(c["paths"]), len(c["paths"][0])
+    paths = [list(p) for p in c["paths"]]
+    T0 = len(paths[0])
     pow2 = kind == "forward_start"
-    menu = [("strike", 4), ("spot", 3), ("again", 1), ("reregister", 1)]
-    if kind not in ("forward_start", "variance_swap"):
-        menu.append(("call", 3))
-    if kind == "forward_start":
-        menu.append(("start", 3))
-    if kind != "variance_swap":
-        menu.append(("clause", 1))
+    vs = kind == "variance_swap"
     ops = []
-    for _ in range(g.choice([1, 2, 3, 4, 6])):
+    for _ in range(g.choice([1, 2, 3, 4, 6, 10])):
+        N, T = len(paths), len(paths[0])
+        menu = [("strike", 4), ("again", 1), ("reregister", 1), ("simulate", 1), ("badcell", 1)]
+        if T > 0:
+            menu.append(("spot", 3))
+        if kind not in ("forward_start", "variance_swap"):
+            menu.append(("call", 3))
+        if kind == "forward_start":
+            menu.append(("start", 3))
+        if not vs:
+            menu.append(("clause", 2))
+            menu.append(("badclause", 1))
         op = g.weighted(menu)
         if op == "strike":
             if pow2:
-                ops.append(["strike", rat_str(g.choice([F(1, 4), F(1, 2), F(1), F(2), F(3, 4)]))])
+                o = ["strike", rat_str(g.choice([F(1, 4), F(1, 2), F(1), F(2), F(3, 4)]))]
             else:
-                ops.append(["strike", rat_str(g.choice([p[-1] for p in c["paths"]] + [g.dy(F(1, 4), 4, 3)] * 2))])
+                o = ["strike", rat_str(g.choice([p[-1] for p in paths if p] + [g.dy(F(1, 4), 4, 3)] * 2))]
         elif op == "call":
-            ops.append(["call", g.chance(0.7)])          # "toggle" with prob .7, else re-assign the same flag
+            o = ["call", g.weighted([("toggle", 6), ("same", 2), ("true", 1), ("false", 1)])]
         elif op == "start":
-            ops.append(["start", g.randint(0, T - 1)])
+            if T > 0 and g.chance(0.8):
+                o = ["start", g.randint(0, T - 1)]
+            else:
+                o = ["start", g.choice([-1, -T, T, T + 1, -T - 1])]       # Python index from the end / outside the buffer
         elif op == "spot":
             cells = []
             for _ in range(g.choice([1, 1, 2, N * T])):
                 v = F(2) ** g.randint(-2, 2) if pow2 else g.dy(F(1, 4), 4, 3)
-                cells.append([g.randint(0, N - 1), g.choice([T - 1, g.randint(0, T - 1)]), rat_str(v)])
-            ops.append(["spot", cells])
-        elif op == "reregister":
-            ops.append(["reregister", enc_rat(gen_paths(g, N, T, 3, pow2=pow2))])
-        elif op == "clause":
-            ck = g.choice(["affine", "cap", "floor"])
+                i, j = g.randint(-N, N - 1), g.choice([T - 1, -1, g.randint(-T, T - 1)])
+                paths[i][j] = v
+                cells.append([i, j, rat_str(v)])
+            o = ["spot", cells]
+        elif op == "badcell":
+            i, j = g.choice([(N, 0), (-N - 1, 0), (0, T), (0, -T - 1), (N + 2, T + 2)])
+            o = ["badcell", [[i, j, rat_str(F(3, 2))]]]
+        elif op in ("reregister", "simulate"):
+            if op == "simulate":
+                N2, T2 = (N if g.chance(0.5) else g.small()), T0          # maturity fixes the number of columns
+            else:
+                N2 = N if g.chance(0.6) else g.small()
+                T2 = T if (T > 0 and g.chance(0.6)) else g.choice([2, 3, 5] if vs else [1, 2, 3, 5])
+                if not vs and g.chance(0.04):
+                    T2 = 0                                                # an empty time axis: payoff() must raise
+            paths = gen_paths(g, N2, T2, 3, pow2=pow2)
+            o = [op, enc_rat(paths)]
+        elif op in ("clause", "badclause"):
+            ck = g.choice(["affine", "cap", "floor", "knock_out"])
             if ck == "affine":
                 d = ["affine", rat_str(g.choice([F(1, 2), F(2), F(-1)])), rat_str(g.choice([F(0), F(1, 2), F(-1, 4)]))]
+            elif ck == "knock_out":
+                d = ["knock_out", rat_str(g.choice([max(p) for p in paths if p] + [g.dy(F(1, 4), 4, 3), F(2), F(4)]))]
             else:
                 d = [ck, rat_str(g.dy(0, 2, 2))]
-            ops.append(["clause", g.choice(["a", "b", "z"]), d])
+            o = [op, g.choice(["a", "b", "z"]) if op == "clause" else g.choice(BAD_NAMES), d]
         else:
-            ops.append(["again"])
+            o = ["again"]
+        ops.append(["quiet", o] if (o[0] != "again" and g.chance(0.2)) else o)
     return ops
 
 
 def reuse_expected(cur):
-    """the property statement at the current terms / prices: exact Fractions, floats (tolerance) for the variance swap"""
+    """the property statement at the current terms / prices: exact Fractions, floats (tolerance) for the variance swap.
+    IndexError = no contract value (start index / terminal price outside the buffer)"""
     if cur["kind"] == "variance_swap":
         out = []
         for p in cur["paths"]:
@@ -435,10 +483,11 @@ def reuse_expected(cur):
         return out
     start = cur["sidx"] if cur["kind"] == "forward_start" else 0
     base = [contract(cur["kind"], cur["call"], cur["strike"], p, start, -1) for p in cur["paths"]]
-    return [apply_clauses_py(cur["adds"], b)[1] for b in base]
+    return [apply_clauses_py(cur["adds"], b, path=p)[1] for b, p in zip(base, cur["paths"])]
 
 
 def check_reuse(ctx, torch, g):
+    sreqs, smeta = [], []
     for _ in range(160 if ctx.tier == "quick" else 2500):
         c = gen_deriv(g, ctx.tier)
         if c["kind"] == "variance_swap":
@@ -454,39 +503,101 @@ def check_reuse(ctx, torch, g):
             raise InternalError("cannot build derivative: " + repr(e))
         cur = dict(kind=c["kind"], call=c["call"], strike=c["strike"], paths=[list(p) for p in c["paths"]],
                    adds=[list(a) for a in c["adds"]], sidx=c["sidx"], dt=c["dt"])
+        # ---- the same session for the Lean model (Model/Session.lean, driver op "session"): `mops` = model operations in the
+        # order they were carried out on the real object, `iouts` = what the real object showed for each of them
+        flt = c["kind"] == "variance_swap"
+        enc = (lambda q: float_bits(float(F(q)))) if flt else (lambda q: rat_str(F(q)))
+        encd = lambda desc: [desc[0]] + [enc(x) for x in desc[1:]]      # noqa
+        sreq = {"op": "session", "carrier": "float" if flt else "rat", "kind": c["kind"], "strike": enc(c["strike"]),
+                "call": c["call"], "start": c["sidx"], "dt": enc(c["dt"]), "spot": [[enc(v) for v in p] for p in c["paths"]],
+                "attrs": [n for n in ATTR_CANDIDATES if hasattr(d, n)]}
+        mops = [["clause", n, encd(desc)] for n, desc in c["adds"]]        # build_deriv registered them (valid names)
+        iouts = [None] * len(mops)
         for step, op in enumerate([["initial"]] + ops):
+            quiet = op[0] == "quiet"
+            if quiet:
+                op = op[1]
             what = op[0]
             with torch.no_grad():
                 if what == "strike":
                     cur["strike"] = F(op[1])
                     d.strike = float(cur["strike"])
+                    mops.append(["strike", enc(op[1])]); iouts.append(None)
                 elif what == "call":
-                    cur["call"] = (not cur["call"]) if op[1] else cur["call"]
-                    d.call = cur["call"]
+                    if op[1] == "toggle":
+                        cur["call"] = not cur["call"]
+                        d.call = not d.call                      # the object's own flag is read and written back
+                        mops.append(["toggle"])
+                    else:
+                        cur["call"] = {"same": cur["call"], "true": True, "false": False}[op[1]]
+                        d.call = cur["call"]
+                        mops.append(["call", cur["call"]])
+                    iouts.append(None)
                 elif what == "start":
                     cur["sidx"] = op[1]
                     d.start = op[1] * float(c["dt"])
-                elif what == "spot":
+                    mops.append(["start", op[1]]); iouts.append(None)
+                elif what in ("spot", "badcell"):
                     for i, j, v in op[1]:
-                        cur["paths"][i][j] = F(v)
-                        stock.spot[i, j] = float(F(v))          # in place: the buffer object stays the same
-                elif what == "reregister":
+                        try:
+                            cur["paths"][i][j] = F(v)           # Python list indexing: the oracle's own reading
+                        except IndexError:
+                            pass
+                        try:
+                            stock.spot[i, j] = float(F(v))      # in place: the buffer object stays the same
+                            iouts.append(None)
+                        except Exception as e:  # noqa
+                            iouts.append(("err", canon_error(e)))
+                        mops.append(["cell", i, j, enc(v)])
+                elif what in ("reregister", "simulate"):
                     cur["paths"] = [[F(v) for v in p] for p in op[1]]
-                    stock.register_buffer("spot", torch.tensor([[float(v) for v in p] for p in cur["paths"]], dtype=torch.float64))
-                elif what == "clause":
-                    cur["adds"].append([op[1], op[2]])
-                    d.add_clause(op[1], CLAUSES[op[2][0]](*[F(x) for x in op[2][1:]]))
+                    new = torch.tensor([[float(v) for v in p] for p in cur["paths"]], dtype=torch.float64).reshape(
+                        len(cur["paths"]), len(cur["paths"][0]))
+                    if what == "simulate":
+                        d.simulate(n_paths=len(cur["paths"]))   # the library replaces the buffer ...
+                        if tuple(stock.spot.shape) == tuple(new.shape):
+                            stock.spot.copy_(new)               # ... and the prices are overwritten in place
+                        else:
+                            stock.register_buffer("spot", new)
+                    else:
+                        stock.register_buffer("spot", new)
+                    mops.append(["reregister", [[enc(v) for v in p] for p in cur["paths"]]]); iouts.append(None)
+                elif what in ("clause", "badclause"):
+                    if op[1] != "" and "." not in op[1] and op[1] not in ("strike", "payoff", "maturity"):
+                        cur["adds"].append([op[1], op[2]])
+                    try:
+                        d.add_clause(op[1], CLAUSES[op[2][0]](*[F(x) for x in op[2][1:]]))
+                        iouts.append(None)
+                    except Exception as e:  # noqa
+                        iouts.append(("err", canon_error(e)))
+                    mops.append(["clause", op[1], encd(op[2])])
+                ctx.stats[f"reuse:op={what}"] += 1
+                if quiet:
+                    ctx.stats["reuse:quiet"] += 1
+                    continue
                 st, v, mut = call_impl(d.payoff, watch=[("derivative", d)])
+            mops.append(["query"])
+            if st != "ok":
+                iouts.append(("err", v))
+            elif flt:
+                iouts.append(("ok", [float(z) for z in v.reshape(-1).tolist()]))
+            else:
+                iouts.append(("ok", tensor_to_fracs(v.reshape(-1))))
             if mut:
                 ctx.mutated("derivative.payoff", mut, case)
-            ctx.stats[f"reuse:op={what}"] += 1
             here = case | {"step": step, "after": op, "strike_now": rat_str(cur["strike"]), "call_now": cur["call"],
                            "sidx_now": cur["sidx"], "paths_now": enc_rat(cur["paths"])}
+            try:
+                exp = reuse_expected(cur)
+            except IndexError:
+                # the contract has no value here (start index / terminal price outside the buffer): nothing for the predicate;
+                # what the object does then (raise) is compared with the model through the session below
+                ctx.stats["reuse:no-contract-value"] += 1
+                continue
             if st != "ok" or tuple(v.shape) != (len(cur["paths"]),):
                 ctx.fail("payoff() on a re-used derivative object raised / has the wrong shape", here,
                          key=f"derivative.{c['kind']}.payoff:reuse-error", detail=v if st != "ok" else list(v.shape))
                 break
-            exp = reuse_expected(cur)
             if c["kind"] == "variance_swap":
                 got = [float(z) for z in v.tolist()]
                 ok = all(abs(a - b) <= 1e-9 * (1 + abs(b)) for a, b in zip(got, exp))
@@ -504,6 +615,65 @@ def check_reuse(ctx, torch, g):
                          f"(after: {what}; something of an earlier evaluation survived?)", here,
                          key=f"derivative.payoff:reuse-after-{what}", detail=det)
                 break
+        # the object as it is now (whatever was carried out), for the comparison with the model's final state
+        fin = {"strike": F(d.strike), "names": [n for n, _ in d.named_clauses()],
+               "spot": [[F(z) for z in r] for r in stock.spot.tolist()]}
+        if hasattr(d, "call"):
+            fin["call"] = bool(d.call)
+        if c["kind"] == "forward_start":
+            fin["start"] = d._start_index()
+        sreqs.append(sreq | {"ops": mops})
+        smeta.append((case, iouts, fin, flt))
+    # ---------------- every payoff() answer (and every refused operation) of the real object against the model's session
+    try:
+        souts = ctx.driver(sreqs)
+    except DriverBroken as e:
+        ctx.ties_broken.append({"kind": "driver", "detail": str(e)[:1500]})
+        souts = []
+    for (case, iouts, fin, flt), req, m in zip(smeta, sreqs, souts):
+        mops = req["ops"]
+        ctx.stats[f"session:carrier={req['carrier']}"] += 1
+        for o in mops:
+            ctx.stats[f"session:op={o[0]}"] += 1
+        mo = m.get("outs")
+        if mo is None or len(mo) != len(iouts):
+            ctx.disagree("session", case | {"model_ops": mops}, _sess_show(iouts, flt), m, note="no / wrong number of outputs")
+            continue
+        for k, (a, b) in enumerate(zip(iouts, mo)):
+            ctx.stats["session:out=" + ("none" if a is None else a[0])] += 1
+            if not _sess_same(a, b, flt):
+                ctx.disagree("session", case | {"model_ops": mops, "at": k, "model_op": mops[k]}, _sess_show([a], flt)[0],
+                             {"ok": dec_flt(b["ok"])} if (flt and isinstance(b, dict) and "ok" in b) else b,
+                             note=f"output {k} of the session differs")
+                break
+        else:
+            mf = m["final"]
+            dec = (lambda x: F(float_of_bits(x))) if flt else F
+            got = {"strike": dec(mf["strike"]), "names": mf["names"], "spot": [[dec(z) for z in r] for r in mf["spot"]]}
+            if "call" in fin:
+                got["call"] = mf["call"]
+            if "start" in fin:
+                got["start"] = mf["start"]
+            if got != fin:
+                ctx.disagree("session", case | {"model_ops": mops}, {k: str(v) for k, v in fin.items()},
+                             {k: str(v) for k, v in got.items()}, note="final state of the object differs")
+
+
+def _sess_same(a, b, flt):
+    """one output of the real object (None | ("ok", values) | ("err", kind)) against the model's (null | {"ok":..} | {"err":..})"""
+    if a is None or b is None:
+        return a is None and b is None
+    if a[0] == "err":
+        return b.get("err") == a[1]
+    if "ok" not in b or len(b["ok"]) != len(a[1]):
+        return False
+    if flt:       # log in the payoff: libm vs torch kernels, compared with a tolerance like the op "var_swap"
+        return all(abs(x - y) <= 1e-10 * (1 + abs(x)) for x, y in zip(a[1], dec_flt(b["ok"])))
+    return a[1] == dec_rat(b["ok"])
+
+
+def _sess_show(outs, flt):
+    return [o if (o is None or o[0] == "err") else ("ok", o[1] if flt else enc_rat(o[1])) for o in outs]
 
 
 # ---------------------------------------------------------------------------------------------------------------------------
